@@ -32,6 +32,10 @@ def analyse_build(ctx, F, crate, builder_adt, end_adt_path, end_kind, header_che
     b = A.body
     fields = {f["i"]: f for f in builder_adt["fields"]}
     tag_fields = {i: f for i, f in fields.items() if f["name"] not in non_tag_fields}
+    # ---- the whole list written as one array literal: `[slot.as_ref().map(view), .., Some(end view)].into_iter().flatten().collect()`
+    arr_form = array_form(ctx, F, A, tag_fields, end_adt_path, end_kind, header_check)
+    if arr_form is not None:
+        return dict(inst=inst, pushes=[], per_field={})
     pushes = []
     push_vecs = []
     for bb, t in b.calls():
@@ -237,6 +241,65 @@ def analyse_build(ctx, F, crate, builder_adt, end_adt_path, end_kind, header_che
         ok_nb = vec_ok and header_check(hdr)
     ctx.check(ok_nb, "BUILDER", "new_boxed", "build() returns new_boxed(fresh header, the pushed slices in push order)", A.site(), how=G.show(rt)[:160], why=G.show(rt)[:300])
     return dict(inst=inst, pushes=pushes, per_field=per_field)
+
+
+def _view_shape(v):
+    return v[0] == "fld" and v[2] == 0 and v[1][0] == "unwrap" and v[1][1][0] == "call" and "BytesRef" in str(v[1][1][1]) and "try_from" in str(v[1][1][1]) \
+        and v[1][1][2][0][0] == "rawslice" and v[1][1][2][0][2][0] == "sizeofval"
+
+
+def array_form(ctx, F, A, tag_fields, end_adt_path, end_kind, header_check):
+    """build() = new_boxed(header, [e_1, .., e_n, Some(end)].into_iter().flatten().collect::<Vec<_>>().as_slice()) with
+    e_k = `if self.slot_k is Some(t) { Some(view(t)) } else { None }`.  Std contracts: array IntoIter yields the elements in
+    order, Flatten over Options yields exactly the Some payloads in that order, collect into a Vec keeps the order.
+    Returns None if build() is not of this form (the push/extend analysis applies), True after emitting the obligations."""
+    rt, _ = A.ret()
+    n = N(rt) if rt is not None else None
+    if not (n is not None and n[0] == "call" and cn(n[1]) == "multiboot2_common::boxed::new_boxed"):
+        return None
+    hdr, sl = n[2]
+    if not (sl[0] == "call" and cn(sl[1]) == "alloc::vec::Vec::as_slice" and sl[2][0][0] == "ref"):
+        return None
+    x = sl[2][0][1]
+    chain = []
+    while x[0] == "call" and len(x[2]) == 1:
+        chain.append(str(x[1]))
+        x = x[2][0]
+    if not (x[0] == "aggr" and x[1] == ("array",) and len(chain) == 3 and "Iterator>::collect" in chain[0] and "Iterator>::flatten" in chain[1]
+            and "IntoIterator for [" in chain[2] and "into_iter" in chain[2]):
+        return None
+    elems = list(x[2])
+    seen = {}
+    bad = []
+    for k, e in enumerate(elems[:-1]):
+        ok = False
+        if e[0] == "ite" and e[2][0] == "aggr" and e[2][1][:3] == ("adt", "core::option::Option", "Some") and e[3][0] == "aggr" and e[3][1][:3] == ("adt", "core::option::Option", "None"):
+            c = N(e[1])
+            view = e[2][2][0]
+            if c[0] == "cmp" and c[1] == "Eq" and c[3] == ("c", 1) and c[2][0] == "discr" and c[2][1][0] == "fld" and c[2][1][1] == arg(1):
+                fi = c[2][1][2]
+                slot = fld(arg(1), fi)
+                ok = fi in tag_fields and _view_shape(view) and any(s_ == CH.payload_of(slot, 1) or s_ == ("dc", slot, 1) for s_ in subterms(view))
+                if ok:
+                    seen.setdefault(fi, []).append(k)
+        if not ok:
+            bad.append((k, G.show(e)[:100]))
+    ctx.check(not bad, "BUILDER", "build:array-elements", "every element of the slice list is `Some(as_bytes view of the slot's tag)` iff that slot is set", A.site(),
+              how="%d conditional elements" % (len(elems) - 1), why="unrecognised elements: %s" % bad)
+    for i, f in sorted(tag_fields.items()):
+        ks = seen.get(i, [])
+        fty = F.ty(f["ty"]) or {}
+        ctx.check(len(ks) == 1 and fty.get("adt_name") == "Option", "BUILDER", "slot:" + f["name"],
+                  "slot `%s` is appended by exactly one element of the slice list - iff it is set" % f["name"], A.site(),
+                  how="array element #%s" % ks, why="%d elements for this slot (kind %s)" % (len(ks), fty.get("adt_name")))
+    last = elems[-1]
+    ok_end = last[0] == "aggr" and last[1][:3] == ("adt", "core::option::Option", "Some") and _view_shape(last[2][0]) and \
+        any(is_adt_aggr(s_, end_adt_path) for s_ in subterms(last[2][0]))
+    ctx.check(ok_end, "BUILDER", "end-tag", "the end tag (%s) is the last element of the slice list, unconditionally, exactly once" % end_kind, A.site(),
+              how="last array element is Some(end tag view)", why=G.show(last)[:200])
+    ctx.check(header_check(hdr), "BUILDER", "new_boxed", "build() returns new_boxed(fresh header, the collected slices in list order)", A.site(),
+              how=G.show(rt)[:160], why=G.show(rt)[:300])
+    return True
 
 
 def reachable_from(b, start):
